@@ -542,6 +542,27 @@ func genHostileFile(r *PRNG, i int) KsFile {
 			"kdf": kdfName, "kdfparams": map[string]interface{}{"c": c, "dklen": dklen, "prf": prf, "salt": hexOr(salt)}, "mac": hexOr(mac),
 		},
 	}
+	if r.Chance(0.2) {
+		// a key file as other wallets write it (geth, MyEtherWallet): scrypt instead of pbkdf2, with its own parameters -
+		// complete, partly missing, zero, negative, not a power of two
+		kp := map[string]interface{}{"dklen": []int{32, 32, 0, 64}[r.Intn(4)], "salt": hexOr(salt)}
+		if v := []int{1024, 2, 262144, 4096, 0, 3, -1, 1 << 30}[r.Intn(8)]; r.Chance(0.85) {
+			kp["n"] = v
+		}
+		if v := []int{8, 1, 0, -1, 1 << 20}[r.Intn(5)]; r.Chance(0.7) {
+			kp["r"] = v
+		}
+		if v := []int{1, 0, -1, 1 << 20}[r.Intn(4)]; r.Chance(0.7) {
+			kp["p"] = v
+		}
+		body["crypto"].(map[string]interface{})["kdf"] = "scrypt"
+		body["crypto"].(map[string]interface{})["kdfparams"] = kp
+		if r.Chance(0.7) {
+			body["version"] = 3
+			body["crypto"].(map[string]interface{})["cipher"] = "aes-128-ctr"
+			body["crypto"].(map[string]interface{})["cipherparams"] = map[string]interface{}{"iv": hex.EncodeToString(r.Bytes(16))}
+		}
+	}
 	bz, _ := json.Marshal(body)
 	s := string(bz)
 	switch r.Intn(10) {
